@@ -86,3 +86,48 @@ def extract_fa(a):
 
 def lib_word(word):
     return list(word)
+
+
+# --------------------------------------------------------------- grammars
+
+def cfgmod():
+    import pyformlang.cfg as m
+    return m
+
+
+def build_cfg(case, scheme="plain", via="full"):
+    """via: 'full' (variables, terminals, start symbol, productions all passed),
+    'prods' (start symbol + productions only)."""
+    from .gen import cfg as GC
+    m = cfgmod()
+    v, t, prods = case
+    vn, tn = GC.names(case, scheme)
+    V = [m.Variable(x) for x in vn]
+    T = [m.Terminal(x) for x in tn]
+
+    def sym(i):
+        return V[i] if i < v else T[i - v]
+    P = {m.Production(V[h], [sym(s) for s in body]) for h, body in prods}
+    if via == "full":
+        return m.CFG(set(V), set(T), V[0], P)
+    return m.CFG(start_symbol=V[0], productions=P)
+
+
+def extract_cfg(g):
+    """Library CFG -> reference Gram through variables / terminals / productions / start_symbol."""
+    from .refs.cfg import Gram
+    m = cfgmod()
+
+    def sym(x):
+        if isinstance(x, m.Variable):
+            return ("V", x.value)
+        if isinstance(x, m.Terminal):
+            return ("T", x.value)
+        raise TypeError("production symbol of unexpected type %r" % (type(x).__name__,))
+    prods = []
+    for p in g.productions:
+        body = tuple(sym(x) for x in p.body if not isinstance(x, m.Epsilon))
+        prods.append((sym(p.head), body))
+    start = g.start_symbol
+    return Gram(None if start is None else ("V", start.value), prods,
+                [("V", x.value) for x in g.variables], [("T", x.value) for x in g.terminals])
